@@ -609,6 +609,57 @@ def search_direction(ctx):
         raise AnalysisError("stack searches vanished: %s" % sorted(missing))
 
 
+def form_end_tag(ctx):
+    """C01.27: "An end tag whose tag name is form" (no template on the stack): let node be the form element pointer; *set the
+    pointer to null*; if node is null or not in scope, parse error and return; otherwise generate implied end tags, report a
+    current node that is not node, and remove node (not the current node) from the stack.  InBodyPhase.endTagForm is run from
+    its source (sa/classeval.py) on model trees: the pointer must be null afterwards in every case -- a pointer left behind by an
+    ignored </form> makes the parser drop every later <form> start tag."""
+    from ..classeval import ClassEval, Record
+    r = ctx.r
+    r.rule("C01.27", "</form>: the form element pointer is cleared whether or not the end tag is ignored; node, not the current node, leaves the stack", floor=4)
+    cls = ctx.repo.cls(PARSER_REL, "InBodyPhase")
+    f = cls.find_method("endTagForm")
+    if f is None:
+        r.idiom("C01.27", False, "form-end-tag", PARSER_REL, "InBodyPhase.endTagForm not found")
+        return
+    mod = ctx.repo.module(PARSER_REL)
+    HTML = "http://www.w3.org/1999/xhtml"
+
+    def el(name):
+        return Record(tag=name, name=name, namespace=HTML, nameTuple=(HTML, name), attributes={})
+    for label, has_ptr, in_scope, extra, want_stack, want_err in (
+            ("no-pointer", False, True, [], ["html", "body", "form"], True),
+            ("pointer-in-scope-current", True, True, [], ["html", "body"], False),
+            ("pointer-out-of-scope", True, False, ["table"], ["html", "body", "form", "table"], True),
+            ("pointer-in-scope-not-current", True, True, ["div"], ["html", "body", "div"], True)):
+        form = el("form")
+        stack = [el("html"), el("body"), form] + [el(x) for x in extra]
+        errors, implied = [], []
+        tree = Record(formPointer=form if has_ptr else None, openElements=stack, defaultNamespace=HTML,
+                      elementInScope=lambda target, variant=None, in_scope=in_scope: in_scope,
+                      generateImpliedEndTags=lambda *a, **k: implied.append(1))
+        parser = Record(parseError=lambda *a, **k: errors.append(a[0] if a else None))
+        key = "form-end-tag::%s" % label
+        try:
+            ClassEval(ctx.ce, mod, cls, {"tree": tree, "parser": parser}, repo=ctx.repo).call("endTagForm", [{"type": 4, "name": "form", "namespace": HTML, "data": {}}])
+        except AnalysisError as e:
+            r.idiom("C01.27", False, key, f.where, "endTagForm is not evaluable (%s)" % str(e)[:90])
+            continue
+        got_stack = [x.tag for x in stack]
+        ptr = getattr(tree, "formPointer", None)
+        problems = []
+        if ptr is not None:
+            problems.append("the form element pointer is still set afterwards (the standard clears it before the scope test, so an ignored "
+                            "</form> still lets the next <form> start tag through: `<table><form><tr><td></form><form id=2>`)")
+        if got_stack != want_stack:
+            problems.append("the stack of open elements is %s, the standard leaves %s" % (got_stack, want_stack))
+        if bool(errors) != want_err:
+            problems.append("parse errors %s, the standard %s one" % (errors, "reports" if want_err else "does not report"))
+        r.check("C01.27", not problems, key, f.where, "</form> with %s: %s" % (label.replace("-", " "), "; ".join(problems)),
+                {"scenario": label}, detail={"scenario": label, "stack": got_stack, "errors": errors})
+
+
 def frameset_text(ctx):
     """C01.26: "in frameset", "after frameset", "after after frameset": a white-space character is inserted (resp. handled by the
     in-body rules), any other character is a parse error and ignored -- *per character*.  The tokenizer hands over runs
@@ -1876,6 +1927,7 @@ def run(ctx):
     reentrant_brackets(ctx)
     table_text_condition(ctx)
     frameset_text(ctx)
+    form_end_tag(ctx)
     from . import modes
     modes.run(ctx, "C01.12")
     standard_tables(ctx)
@@ -1889,6 +1941,10 @@ def thorough(ctx):
 def mutants():
     from ..selftest import TextMutant as T
     return [
+        T("form-pointer-cleared-only-when-closed", "html5parser.py",
+          "        node = self.tree.formPointer\n        self.tree.formPointer = None\n        if node is None or not self.tree.elementInScope(node):",
+          "        node = self.tree.formPointer\n        if node is None or not self.tree.elementInScope(node):", "C01.27"),
+        T("form-end-pops-current-node", "html5parser.py", "            self.tree.openElements.remove(node)\n\n    def endTagListItem", "            self.tree.openElements.pop()\n\n    def endTagListItem", "C01.27"),
         T("table-text-any-current-node", "html5parser.py", '        return self.tree.openElements[-1].name in ("table", "tbody", "tfoot", "thead", "tr")',
           '        return True', "C01.24"),
         T("table-text-not-for-tr", "html5parser.py", '        return self.tree.openElements[-1].name in ("table", "tbody", "tfoot", "thead", "tr")',
@@ -1989,6 +2045,9 @@ def mutants():
 def preserving():
     from ..selftest import TextMutant as T
     return [
+        T("form-end-guard-clauses", "html5parser.py",
+          "        node = self.tree.formPointer\n        self.tree.formPointer = None\n        if node is None or not self.tree.elementInScope(node):\n            self.parser.parseError(\"unexpected-end-tag\",\n                                   {\"name\": \"form\"})\n        else:\n            self.tree.generateImpliedEndTags()\n            if self.tree.openElements[-1] != node:\n                self.parser.parseError(\"end-tag-too-early-ignored\",\n                                       {\"name\": \"form\"})\n            self.tree.openElements.remove(node)\n",
+          "        node, self.tree.formPointer = self.tree.formPointer, None\n        if node is None or not self.tree.elementInScope(node):\n            self.parser.parseError(\"unexpected-end-tag\", {\"name\": \"form\"})\n            return\n        self.tree.generateImpliedEndTags()\n        if self.tree.openElements[-1] != node:\n            self.parser.parseError(\"end-tag-too-early-ignored\", {\"name\": \"form\"})\n        self.tree.openElements.remove(node)\n", None),
         T("scope-by-union", "treebuilders/base.py", '    "button": (frozenset(scopingElements | {(namespaces["html"], "button")}), False),',
           '    "button": (frozenset(set(scopingElements) | frozenset([(namespaces["html"], "button")])), False),', None),
         T("formatting-const-edit", "constants.py", '    (namespaces["html"], "tt"),\n    (namespaces["html"], "u")\n])',
